@@ -82,13 +82,13 @@ theorem shapes_replicate : ∀ {vs : List Val} {n : Nat} {τ : STy},
 
 /-! ### environments -/
 
-theorem envOk_lookup : ∀ {env : Env} {Γ : Ctx} {x : String} {τ : STy},
-    EnvOk D env Γ → lookupCtx Γ x = some τ → ∃ v, lookup env x = some v ∧ HasShape D v τ := by
+theorem envOk_lookup : ∀ {env : Env} {Γ : Ctx} {x : String} {S : Sch},
+    EnvOk D env Γ → lookupCtx Γ x = some S → ∃ v, lookup env x = some v ∧ ∀ τ, S τ → HasShape D v τ := by
   intro env
   induction env with
-  | nil => intro Γ x τ h hl; cases h; simp [lookupCtx] at hl
+  | nil => intro Γ x S h hl; cases h; simp [lookupCtx] at hl
   | cons b env ih =>
-    intro Γ x τ h hl
+    intro Γ x S h hl
     cases h with
     | cons hv henv =>
       rename_i y v σ Γ'
@@ -118,7 +118,9 @@ theorem envOk_bind : ∀ (xs : List String) {vs : List Val} {τs : List STy} {en
     intro vs τs env Γ hs h
     cases hs with
     | nil => simpa [bindParams, bindCtx] using h
-    | cons hv hvs => simp only [bindParams, bindCtx]; exact ih hvs (.cons hv h)
+    | cons hv hvs =>
+      simp only [bindParams, bindCtx]
+      exact ih hvs (.cons (fun τ' hτ' => by cases hτ'; exact hv) h)
 
 /-! ### safe results -/
 
@@ -164,13 +166,17 @@ theorem safe_primCmp {op : String} (h : cmpOp op) (x y : Int) : Safe D (primOp o
 
 /-! ### patterns -/
 
+theorem liftCtx_append (a b : MCtx) : liftCtx (a ++ b) = liftCtx a ++ liftCtx b := by
+  simp [liftCtx]
+
 mutual
-theorem matchPat_sound : ∀ (p : Pat) {v : Val} {τ : STy} {Δ : Ctx} {b : Env},
-    PatType D p τ Δ → HasShape D v τ → matchPat p v = some b → EnvOk D b Δ
+theorem matchPat_sound : ∀ (p : Pat) {v : Val} {τ : STy} {Δ : MCtx} {b : Env},
+    PatType D p τ Δ → HasShape D v τ → matchPat p v = some b → EnvOk D b (liftCtx Δ)
   | .wild, v, τ, Δ, b, hp, hv, hm => by
     cases hp; simp [matchPat] at hm; subst hm; exact .nil
   | .var x, v, τ, Δ, b, hp, hv, hm => by
-    cases hp; simp [matchPat] at hm; subst hm; exact .cons hv .nil
+    cases hp; simp [matchPat] at hm; subst hm
+    exact .cons (fun τ' hτ' => by cases hτ'; exact hv) .nil
   | .int n, v, τ, Δ, b, hp, hv, hm => by
     cases hp; cases hv; simp [matchPat] at hm; obtain ⟨_, rfl⟩ := hm; exact .nil
   | .str s, v, τ, Δ, b, hp, hv, hm => by
@@ -202,10 +208,10 @@ theorem matchPat_sound : ∀ (p : Pat) {v : Val} {τ : STy} {Δ : Ctx} {b : Env}
       split at hm
       · rename_i b' hb'
         cases hm
-        exact .cons hv (matchPat_sound p hp' hv hb')
+        exact .cons (fun τ' hτ' => by cases hτ'; exact hv) (matchPat_sound p hp' hv hb')
       · cases hm
-theorem matchPats_sound : ∀ (ps : List Pat) {vs : List Val} {τs : List STy} {Δ : Ctx} {b : Env},
-    PatsType D ps τs Δ → HasShapes D vs τs → matchPats ps vs = some b → EnvOk D b Δ
+theorem matchPats_sound : ∀ (ps : List Pat) {vs : List Val} {τs : List STy} {Δ : MCtx} {b : Env},
+    PatsType D ps τs Δ → HasShapes D vs τs → matchPats ps vs = some b → EnvOk D b (liftCtx Δ)
   | [], vs, τs, Δ, b, hp, hv, hm => by
     cases hp; simp [matchPats] at hm; subst hm; exact .nil
   | p :: ps, vs, τs, Δ, b, hp, hv, hm => by
@@ -219,11 +225,12 @@ theorem matchPats_sound : ∀ (ps : List Pat) {vs : List Val} {τs : List STy} {
           split at hm
           · rename_i b2 hb2
             cases hm
+            rw [liftCtx_append]
             exact envOk_append (matchPats_sound ps hps hvs hb2) (matchPat_sound p hp1 hv1 hb1)
           · cases hm
         · cases hm
-theorem matchFields_sound : ∀ (fs : List (Nat × Pat)) {vs : List Val} {τs : List STy} {Δ : Ctx} {b : Env},
-    FieldsType D fs τs Δ → HasShapes D vs τs → matchFields fs vs = some b → EnvOk D b Δ
+theorem matchFields_sound : ∀ (fs : List (Nat × Pat)) {vs : List Val} {τs : List STy} {Δ : MCtx} {b : Env},
+    FieldsType D fs τs Δ → HasShapes D vs τs → matchFields fs vs = some b → EnvOk D b (liftCtx Δ)
   | [], vs, τs, Δ, b, hp, hv, hm => by
     cases hp; simp [matchFields] at hm; subst hm; exact .nil
   | (i, p) :: fs, vs, τs, Δ, b, hp, hv, hm => by
@@ -236,6 +243,7 @@ theorem matchFields_sound : ∀ (fs : List (Nat × Pat)) {vs : List Val} {τs : 
         split at hm
         · rename_i b2 hb2
           cases hm
+          rw [liftCtx_append]
           exact envOk_append (matchFields_sound fs hfs hv hb2) (matchPat_sound p hp1 hws hb1)
         · cases hm
       · cases hm
@@ -318,7 +326,7 @@ theorem envOk_recAux {group : List (String × List String × Expr)} {env : Env} 
     ∀ (bs : List (String × List String × Expr)) (k : Nat) (ts : List STy),
       HasGroup D (recCtx group τs Γ) bs ts → (∀ j, ts[j]? = τs[k + j]?) →
       EnvOk D ((bs.zipIdx k).map fun (b, i) => (b.1, Val.recclos group i env))
-        ((bs.zip ts).map fun (b, t) => (b.1, t)) := by
+        ((bs.zip ts).map fun (b, t) => (b.1, Sch.mono t)) := by
   intro bs
   induction bs with
   | nil => intro k ts h _; cases h; exact .nil
@@ -332,7 +340,9 @@ theorem envOk_recAux {group : List (String × List String × Expr)} {env : Env} 
       have h0 := hts 0
       simp only [List.getElem?_cons_zero, Nat.add_zero] at h0
       refine .cons ?_ (ih (k + 1) ts' hrest ?_)
-      · rw [hac] at h0 ⊢
+      · intro τ' hτ'
+        cases hτ'
+        rw [hac] at h0 ⊢
         exact .recclos henv hg h0.symm
       · intro j
         have := hts (j + 1)
@@ -397,10 +407,10 @@ theorem sound_succ {n : Nat} (ih : Sound D n) : Sound D (n + 1) := by
     cases hty with
     | int => simp only [eval]; exact .int
     | str => simp only [eval]; exact .str
-    | var h =>
+    | var h hS =>
       simp only [eval]
       obtain ⟨v, hv, hs⟩ := envOk_lookup henv h
-      simp only [hv]; exact hs
+      simp only [hv]; exact hs _ hS
     | lam hne hlen hbody hτ =>
       simp only [eval]
       subst hτ
@@ -432,6 +442,18 @@ theorem sound_succ {n : Nat} (ih : Sound D n) : Sound D (n + 1) := by
         cases hm : matchPat _ v with
         | none => trivial
         | some b => exact ihE h2 (envOk_append (matchPat_sound _ hp hr hm) henv)
+    | letGen hσ hall h2 =>
+      simp only [eval]
+      have hr := ihE (hall _ hσ) henv
+      generalize hev : eval n env _ = r at hr ⊢
+      cases r with
+      | error err => exact safe_err hr
+      | ok v =>
+        simp only [matchPat]
+        refine ihE h2 (.cons (fun τ' hτ' => ?_) henv)
+        have h' := ihE (hall _ hτ') henv
+        rw [hev] at h'
+        exact h'
     | letrec hg hb =>
       simp only [eval]
       exact ihE hb (envOk_rec henv hg)
